@@ -97,7 +97,8 @@ pub(crate) fn sanitize_namespace(key: &str) -> String {
         })
         .collect();
 
-    if sanitized.trim_matches('_').is_empty() {
+    // "." and ".." are not private directories: they would resolve to the data dir itself or its parent.
+    if sanitized.trim_matches('_').is_empty() || sanitized == "." || sanitized == ".." {
         sanitized = format!("ns_{:x}", checksum64(key.as_bytes()));
     }
     sanitized
